@@ -100,16 +100,33 @@ func c19(r *rand.Rand, n int) {
 // ---- C12 -----------------------------------------------------------------
 
 type includeH struct {
-	files map[string]string
-	reads int
+	files    map[string]string
+	reads    int
+	maxDepth int
 }
 
 // ReadFile serves the include graph. A Go stack overflow is fatal (it cannot be recovered), so the
-// handler stops serving after 500 nested reads and the oracle reports the unbounded recursion instead
-// of dying with it.
+// handler measures the nesting depth of the parser on its own call stack and stops serving when it
+// passes 60 levels: the oracle then reports the unbounded recursion instead of dying with it. It also
+// stops serving after 3000 reads: a bounded-depth include tree is finite but grows as k^depth.
 func (h *includeH) ReadFile(name string) ([]byte, error) {
 	h.reads++
-	if h.reads > 500 {
+	pcs := make([]uintptr, 4096)
+	fr := runtime.CallersFrames(pcs[:runtime.Callers(1, pcs)])
+	depth := 0
+	for {
+		f, more := fr.Next()
+		if strings.HasSuffix(f.Function, "inputrc.(*Parser).Parse") {
+			depth++
+		}
+		if !more {
+			break
+		}
+	}
+	if depth > h.maxDepth {
+		h.maxDepth = depth
+	}
+	if depth > 60 || h.reads > 3000 {
 		return nil, os.ErrNotExist
 	}
 	if s, ok := h.files[name]; ok {
@@ -193,8 +210,8 @@ func c12(r *rand.Rand, n int) {
 			if res != "" {
 				parts := strings.SplitN(res, "|", 2)
 				add(parts[0], parts[1], show)
-			} else if h.reads > 500 {
-				add("include-recursion-unbounded", fmt.Sprintf("%d nested $include reads of a file that includes itself, stopped only by the handler", h.reads), show)
+			} else if h.maxDepth > 60 {
+				add("include-recursion-unbounded", fmt.Sprintf("a file that includes itself is parsed %d levels deep, stopped only by the handler", h.maxDepth), show)
 			}
 		case <-time.After(5 * time.Second):
 			add("no-termination/"+class, fmt.Sprintf("still running after 5 s (%d include reads)", h.reads), show)
